@@ -23,7 +23,7 @@ if __name__ == "__main__":
     sys.path.insert(0, _V)
 
 from vlib import tlc as tlcmod, util
-from vlib.ctx import Ctx, validate_trace
+from vlib.ctx import Ctx, validate_trace as _validate_trace
 
 HARNESS = os.path.join(util.VERIF, "harness", "ebpf")
 OUT = os.path.join(util.BUILD, "ebpf")
@@ -44,6 +44,17 @@ ASSUME = [
     "tcp_connect; the agent registers its pid while none of its threads is mid-connect; a source port is reused "
     "only after its record is gone",
 ]
+
+
+def validate_trace(c, module, cfg, rows, name, **kw):
+    """vlib's validate_trace; a run TLC cannot follow to its last row surfaces there as a TlcError (the failed
+    POSTCONDITION is printed in a form tlc.py does not classify) -- report it as 'not matched' instead."""
+    try:
+        return _validate_trace(c, module, cfg, rows, name, **kw)
+    except tlcmod.TlcError as ex:
+        if "UNMATCHED" in str(ex):
+            return False, "trace not matched to its end", None
+        raise
 
 
 # ------------------------------------------------------------------------------------------------ build
@@ -379,8 +390,8 @@ def diagnose(rows):
                 b = bad(i, "RecordTruth", "earlier-record-lost")
             recd.discard(r["sport"])
         if b:
-            b["site"] = "trace_v4 fallback" if (e == "tcp" and r["direct"]) else \
-                "connect4/update_local_map_entry" if e == "tcp" else e
+            # a record of a diverted connect comes from update_local_map_entry; any other record from trace_v4's fallback
+            b["site"] = e if e != "tcp" else "connect4/update_local_map_entry" if mode == "must" else "trace_v4 fallback"
             return b
     return None
 
@@ -1007,7 +1018,11 @@ def selftest(seed=1):
             bad1[i]["rec"]["pid"] = bad1[i]["rec"]["pid"] + "1"
             j = next(k for k, r in enumerate(rows) if r["e"] == "connect4" and (r["oip"], r["oport"]) != (r["ip"], r["port"]))
             bad2 = rows[:j] + rows[j + 1:]
-            for nm, rr, expect in (("intact", rows, True), ("corrupt-field", bad1, False), ("dropped-connect4", bad2, False)):
+            dst = (rows[j]["ip"], rows[j]["port"])
+            q = max(k for k in range(j) if rows[k]["e"] == "policy" and rows[k]["op"] == "add" and (rows[k]["ip"], rows[k]["port"]) == dst)
+            bad3 = rows[:q] + rows[q + 1:]
+            for nm, rr, expect in (("intact", rows, True), ("corrupt-field", bad1, False), ("dropped-connect4", bad2, False),
+                                   ("dropped-policy-add", bad3, False)):
                 ok, why, _ = validate_trace(c, "EbpfTrace", "EbpfTrace.cfg", rr, "c06_self_" + nm)
                 results["trace-" + nm] = "accepted" if ok else "rejected (%s)" % why[:60]
                 util.log("selftest trace %-18s -> %s (expected %s)" % (nm, results["trace-" + nm], "accepted" if expect else "rejected"))
@@ -1019,7 +1034,7 @@ def selftest(seed=1):
     print(json.dumps(results, indent=1))
     ok = results["fixed-baseline"] == [] and all(results[n] for n, *_ in MUTANTS) and \
         results["trace-intact"] == "accepted" and results["trace-corrupt-field"].startswith("rejected") and \
-        results["trace-dropped-connect4"].startswith("rejected")
+        results["trace-dropped-connect4"].startswith("rejected") and results["trace-dropped-policy-add"].startswith("rejected")
     return 0 if ok else 1
 
 
